@@ -1,11 +1,14 @@
 #!/bin/bash
-# usage: mut_eval.sh <patch.diff> <ID> [tier]   — apply a seeded change to /repo, run the check, undo the change
+# usage: mut_eval.sh <patch.diff> <ID> [tier]
+# Applies a seeded change to a scratch copy of /repo (HEAD) under /tmp and runs the check against that copy
+# (VERIF_REPO), leaving /repo untouched. Prints the check's verdict.
 set -u
-patch="$1"; id="$2"; tier="${3:-quick}"
-cd /repo || exit 3
-if ! git diff --quiet; then echo "/repo has uncommitted changes"; exit 3; fi
-git apply "$patch" || { echo "patch does not apply"; exit 3; }
-cd /verif && ./check "$id" --tier "$tier"; rc=$?
-git -C /repo checkout -- . ; git -C /repo clean -fdq -e target
+patch="$(readlink -f "$1")"; id="$2"; tier="${3:-quick}"
+wt="/tmp/mrepo_lane${LANE:-0}"
+rm -rf "$wt"; mkdir -p "$wt"
+git -C /repo archive HEAD | tar -x -C "$wt" || exit 3
+(cd "$wt" && git init -q && git apply "$patch") || { echo "patch does not apply"; rm -rf "$wt"; exit 3; }
+cd /verif && VERIF_REPO="$wt" ./check "$id" --tier "$tier"; rc=$?
+rm -rf "$wt"
 echo "mut_eval: $patch on $id -> rc=$rc"
 exit $rc
